@@ -4,8 +4,9 @@ FUNCTIONS = ['socket.Socket.poll', 'async_socket.AsyncSocket.poll', 'socket.Sock
              'server.Server.send', 'server.Server.send_packet', 'async_server.AsyncServer.send',
              'async_server.AsyncServer.send_packet', 'base_server.BaseServer._ok']
 FUNCTIONS += ['socket.Socket._websocket_handler.writer', 'async_socket.AsyncSocket._websocket_handler.writer']
+FUNCTIONS += ['async_socket.AsyncSocket.handle_get_request']
 
-LEVEL_TEXT = "per-function contracts over the ghost queue view (accepted / taken logs kept by the queue library contract): send enqueues exactly once on that session's queue only (object-granular frame), poll returns exactly what it removed, in order, never a None, and puts a drained sentinel back; polls during/after an upgrade return one NOOP and leave the queue untouched; the response body is the payload of exactly the packets taken"
+LEVEL_TEXT = "per-function contracts over the ghost queue view (accepted / taken logs kept by the queue library contract): send enqueues exactly once on that session's queue only (object-granular frame), poll returns exactly what it removed, in order, never a None, and puts a drained sentinel back; polls during/after an upgrade return one NOOP and leave the queue untouched; the response body is the payload of exactly the packets taken; the WebSocket writer closure (both servers) hands the frames wire(pkt) of exactly the packets it took to ws.send, one for one and in order (loop invariants over the ghost frame log; after a send error only a tail of the last batch is unsent)"
 LEVEL_NOTE = 'sequential (single-agent) model of each function with producer interference at blocking gets; FIFO/at-most-once of the queue itself is the assumed queue library contract; cooperative scheduling; asyncio handle_get_request / writer loops not yet under contract'
-NOT_DECIDED = ["liveness ('every message is delivered if the client keeps reading')", 'order between two overlapping polling responses', 'the WebSocket writer closure (sends wire(pkt) of each taken packet) is not yet under contract', 'preemptive OS-thread schedules']
+NOT_DECIDED = ["liveness ('every message is delivered if the client keeps reading')", 'order between two overlapping polling responses', 'preemptive OS-thread schedules']
 ASSUMPTIONS = [LEVEL_NOTE]
